@@ -3,6 +3,7 @@ package main
 import (
 	"bytes"
 	"fmt"
+	"sort"
 	"runtime/debug"
 	"time"
 
@@ -109,6 +110,13 @@ func c16Case(cfg explore.Config, pre, klen, vlen int) (msg string) {
 		return fmt.Sprintf("Put(key %d bytes, value %d bytes) within the limits returned error: %v", klen, vlen, err)
 	}
 	d.model[string(key)] = val
+	// a small record right behind it: its 6-byte length prefix starts where the big record ends (at, or a few
+	// bytes before, a sector / read-buffer boundary)
+	postK, postV := []byte("post-key"), []byte("post-value")
+	if err := d.db.Put(postK, postV); err != nil {
+		return "Put(post): " + err.Error()
+	}
+	d.model[string(postK)] = postV
 	if m := d.verify(d.db, "right after the Put"); m != "" {
 		return m
 	}
@@ -297,13 +305,18 @@ func runC16(c *explore.Ctx) {
 				}
 				for _, boundary := range []int{1024, 512 + 4096, 512 + 8192, 65536 + 512} {
 					v := boundary - used - 6 - klen - 4
-					for _, dlt := range []int{-1, 0, 1} {
+					for _, dlt := range []int{-5, -4, -3, -2, -1, 0, 1} {
 						if v+dlt >= 0 {
 							vset[v+dlt] = true
 						}
 					}
 				}
-				for vlen := range vset {
+				var vlens []int
+				for v := range vset {
+					vlens = append(vlens, v)
+				}
+				sort.Ints(vlens) // (every worker must draw jobs in the same order)
+				for _, vlen := range vlens {
 					if !c.Mine() {
 						continue
 					}
@@ -356,7 +369,7 @@ func init() {
 	explore.Register(&explore.CheckInfo{
 		Prop:  "C16",
 		Level: "exploration",
-		Rule: "boundary alphabet: key lengths {0,1,2,255,256,65534,65535} x value lengths {0,1,65535,65536,1 MiB} + the lengths that make the record end at a 512-byte / bufio-window / 64 KiB boundary -1/0/+1, each put into an empty database and after 1 and 2 small records, under the default segment size and under 1 KiB segments (record larger than the remaining space / than a whole segment): byte-exact Get/GetAppend/Has/scan/Count right after the Put, after recovery of the unclean image, after a clean restart and after deleting the key again. " +
+		Rule: "boundary alphabet: key lengths {0,1,2,255,256,65534,65535} x value lengths {0,1,65535,65536,1 MiB} + the lengths that make the record end at a 512-byte / bufio-window / 64 KiB boundary -5..+1 (so that the length prefix of the following small record straddles it), each put into an empty database and after 1 and 2 small records, under the default segment size and under 1 KiB segments (record larger than the remaining space / than a whole segment): byte-exact Get/GetAppend/Has/scan/Count right after the Put, after recovery of the unclean image, after a clean restart and after deleting the key again. " +
 			"Limits: keys of 65536, 65537 and 65536+n / 131072+n bytes whose first n bytes equal a stored n-byte key AND whose 32-bit hash is forged to equal the stored key's hash (n in {4,8,16,256,65532}): Put must fail and leave file-system image, file list and Count unchanged, Get/GetAppend/Has/Delete must behave as for an absent key; value of MaxValueLength+1 rejected the same way (thorough: exactly MaxValueLength round-trips incl. recovery). distinct_nontrivial = distinct (config, lengths) cases",
 		Assumptions:   []string{"input enumeration over a stated boundary alphabet: the numeric ranges themselves (2^16 x 2^29) are not exhausted", "content of keys/values is a fixed pattern"},
 		QuickBudget:   100 * time.Second,
